@@ -257,6 +257,7 @@ pub fn case_strategy() -> BoxedStrategy<Case> {
                     headers,
                     plan,
                     faults: vec![],
+                    tail: vec![],
                 },
                 req,
             }
